@@ -1,12 +1,117 @@
 /-
 C18 — The julian command reports the library's conversions under every option mix.
-(partial by nature: lexopt, the process boundary and the clock are modelled; the theorems
-are about the CLI logic of Model/Cli.lean)
+
+Partial by nature: lexopt 0.3.1 (modelled from its source as the state machine of
+Model/Cli.lean), UTF-8 decoding of arguments (`bytesToString?`, a hypothesis wherever a
+theorem needs a decoded argument), the process boundary and the clock (`today`, a parameter)
+are modelled, and the correspondence check runs the built binary against that model.  The
+theorems are about the CLI logic: option parsing over every command line built from the
+documented options, the per-argument answers, their formatting, and reading printed dates
+back.
 -/
-import JulianVerif.Model.Cli
+import JulianVerif.Lemmas.CliOpts
+import JulianVerif.Lemmas.CliSpec
+import JulianVerif.Props.C13
 set_option linter.unusedSimpArgs false
 namespace JV.C18
 open JV Cli
+
+/-! ### option parsing -/
+
+/-- **options may appear anywhere**: for any command line made of positional arguments,
+negative numbers, the switches -j -J -o -q -s in either spelling and `-r VALUE` /
+`--reformation VALUE`, in any order and number, `from_parser` yields the options obtained
+by applying the switches left to right and the positional arguments in their order -/
+theorem option_parsing (toks : List Tok) (hok : ∀ t ∈ toks, t.Ok) :
+    parseCommand (toks.flatMap Tok.encode)
+      = .run (toks.foldl Tok.apply {}) (toks.filterMap Tok.arg) :=
+  parse_spec toks hok
+
+/-- the calendar a token selects, if any -/
+def calOf : Tok → Option Calendar
+  | .short .julian | .long .julian => some .julian
+  | .reformShort _ _ c | .reformLong _ _ c => some c
+  | _ => none
+
+theorem apply_calendar (o : Options) (t : Tok) :
+    (t.apply o).calendar = (calOf t).getD o.calendar := by
+  cases t with
+  | short f => cases f <;> rfl
+  | long f => cases f <;> rfl
+  | _ => rfl
+
+/-- **the last -j / -r wins, wherever options stand**: the selected calendar is the one
+chosen by the last calendar-selecting option, Gregorian if there is none -/
+theorem last_calendar_wins (toks : List Tok) (o : Options) :
+    (toks.foldl Tok.apply o).calendar = (toks.reverse.findSome? calOf).getD o.calendar := by
+  induction toks generalizing o with
+  | nil => rfl
+  | cons t ts ih =>
+    simp only [List.foldl_cons, List.reverse_cons, List.findSome?_append]
+    rw [ih, apply_calendar]
+    cases h1 : ts.reverse.findSome? calOf with
+    | some c => simp
+    | none =>
+      simp only [Option.getD_none, Option.none_or, List.findSome?_cons, List.findSome?_nil]
+      cases calOf t <;> rfl
+
+/-- the output switches are set exactly when they occur somewhere on the command line -/
+theorem switches_any_position (toks : List Tok) (o : Options) :
+    (toks.foldl Tok.apply o).json
+        = (o.json || toks.any fun t => t matches .short .json | .long .json)
+    ∧ (toks.foldl Tok.apply o).ordinal
+        = (o.ordinal || toks.any fun t => t matches .short .ordinal | .long .ordinal)
+    ∧ (toks.foldl Tok.apply o).quiet
+        = (o.quiet || toks.any fun t => t matches .short .quiet | .long .quiet)
+    ∧ (toks.foldl Tok.apply o).style
+        = (o.style || toks.any fun t => t matches .short .style | .long .style) := by
+  induction toks generalizing o with
+  | nil => simp
+  | cons t ts ih =>
+    simp only [List.foldl_cons, List.any_cons]
+    obtain ⟨h1, h2, h3, h4⟩ := ih (t.apply o)
+    rw [h1, h2, h3, h4]
+    cases t with
+    | short f => cases f <;> simp [Tok.apply, Flag.apply]
+    | long f => cases f <;> simp [Tok.apply, Flag.apply]
+    | _ => simp [Tok.apply]
+
+/-! ### answers -/
+
+/-- an argument is read as a date exactly when it contains a '-' after its first character,
+otherwise as a (possibly negative) day number -/
+theorem parse_arg_spec (o : Options) (s : String) :
+    o.parseArg s =
+      if (s.toList.drop 1).contains '-' then
+        (match o.calendar.parseDate s.toList with | .ok d => some (.date d) | .error _ => none)
+      else (match parseI32 s.toList with | some j => some (.jdn j) | none => none) := by
+  rfl
+
+/-- **one answer per argument, in argument order**: without -J, when every argument is
+acceptable the command prints exactly the arguments' lines in order; each line is about the
+date the argument denotes in the selected calendar (`argDate`: the date written, or the date
+of the day number written) -/
+theorem run_text (o : Options) (hj : o.json = false) (today : Int) (args : List String)
+    (hne : args ≠ []) (ls : List String) (h : argLines o args = .ok ls) :
+    o.run today args = .ok ls
+    ∧ ls.length = args.length
+    ∧ ∀ i (h1 : i < args.length) (h2 : i < ls.length),
+        ∃ d, argDate o args[i] = some d ∧ ls[i] = textLine o args[i] d := by
+  have he : args.isEmpty = false := by cases args <;> simp_all
+  refine ⟨?_, ((argLines_ok_iff o args ls).mp h).1, ?_⟩
+  · rw [run_eq]; simp only [he, h, hj, Bool.false_eq_true, if_false, List.nil_append]
+  · intro i h1 h2
+    have := ((argLines_ok_iff o args ls).mp h).2 i h1 h2
+    obtain ⟨d, hd, hl⟩ := (argLine_ok_iff o _ _).mp this
+    exact ⟨d, hd, by rw [hl, hj]; rfl⟩
+
+/-- the text line: a day-number argument is answered with that day's date, a date argument
+with its day number; -q drops the echo of the input -/
+theorem text_line_spec (o : Options) (a : String) (d : Date) :
+    textLine o a d =
+      match o.parseArg a with
+      | some (.jdn j) => (if o.quiet then "" else s!"JDN {j} = ") ++ o.fmtDate d
+      | _ => (if o.quiet then "" else o.fmtDate d ++ " = JDN ") ++ toString d.jdn := rfl
 
 /-- the date text: the day-of-year form with -o; otherwise year-month-day, followed by
 O.S. / N.S. exactly when -s is given, the calendar is reforming, and -o is not -/
@@ -21,23 +126,43 @@ theorem fmt_date_spec (o : Options) (d : Date) :
   cases hs : o.style <;> simp
   cases hc : d.calendar <;> simp [Calendar.isReforming, Date.isJulian, Calendar.reformation, hc] <;> rfl
 
-/-- a day-number argument is answered with that day's date, a date argument with its day
-number; -q drops the echo of the input and the "JDN" tag -/
-theorem line_spec (o : Options) (hj : o.json = false) (d : Date) (j : Int) (dj : Date)
-    (hat : o.calendar.atJdn? j = some dj) :
-    o.dateToJdn d = (if o.quiet then "" else o.fmtDate d ++ " = JDN ") ++ toString d.jdn
-    ∧ o.jdnToDate j = some ((if o.quiet then "" else s!"JDN {j} = ") ++ o.fmtDate dj) := by
-  constructor
-  · simp only [Options.dateToJdn, hj]; cases o.quiet <;> simp
-  · simp only [Options.jdnToDate, hat, hj]; cases o.quiet <;> simp
+/-- with no arguments the command reports the date of the clock's day in the selected
+calendar -/
+theorem no_args_today (o : Options) (hj : o.json = false) (today : Int) (d : Date)
+    (h : o.calendar.atJdn? today = some d) :
+    o.run today [] = .ok [o.dateToJdn d] := by
+  rw [run_eq]; simp [h, hj]
 
-/-- an argument is read as a date exactly when it contains a '-' after its first character,
-otherwise as a (possibly negative) day number -/
-theorem parse_arg_spec (o : Options) (s : String) :
-    o.parseArg s =
-      if (s.toList.drop 1).contains '-' then
-        (match o.calendar.parseDate s.toList with | .ok d => some (.date d) | .error _ => none)
-      else (match parseI32 s.toList with | some j => some (.jdn j) | none => none) := by
-  rfl
+/-- **the date text the command prints reads back, whatever the options**: both date forms
+are taken as dates (they contain a '-' after the first character, also for negative years)
+and parse to the same date in the same calendar, so the answer line carries `d.jdn`.
+(The O.S./N.S. mark that -s appends after the date text is an annotation, not part of the
+date: the command rejects it as "trailing characters after date", as its parser documents.) -/
+theorem date_text_reads_back (o : Options) (d : Date)
+    (hcal : d.calendar = o.calendar) (hc : WF d.calendar) (hj : InI32 d.jdn)
+    (hcan : d.calendar.atJdn? d.jdn = some d) :
+    o.parseArg (String.ofList (JV.fmtDate d)) = some (.date d)
+    ∧ o.parseArg (String.ofList (fmtDateAlt d)) = some (.date d) := by
+  obtain ⟨h1, h2⟩ := C13.parse_fmt d hc hj hcan
+  obtain ⟨d1, d2⟩ := fmt_is_date_arg d
+  simp only [Options.parseArg, String.toList_ofList, d1, d2, if_true, ← hcal, h1, h2, and_self]
+
+/-- **a printed date fed back under the same options returns the original day number**:
+without the mark, the whole printed form is the date text -/
+theorem printed_date_reads_back (o : Options) (hs : o.style = false ∨ o.ordinal = true) (d : Date)
+    (hcal : d.calendar = o.calendar) (hc : WF d.calendar) (hj : InI32 d.jdn)
+    (hcan : d.calendar.atJdn? d.jdn = some d) :
+    o.parseArg (o.fmtDate d) = some (.date d) := by
+  obtain ⟨h1, h2⟩ := C13.parse_fmt d hc hj hcan
+  obtain ⟨d1, d2⟩ := fmt_is_date_arg d
+  simp only [Options.parseArg, Options.fmtDate]
+  by_cases ho : o.ordinal = true
+  · simp only [ho, if_true, String.toList_ofList, d2, ← hcal, h2]
+  · have hst : o.style = false := by
+      rcases hs with h | h
+      · exact h
+      · exact absurd h ho
+    simp only [ho, Bool.false_eq_true, if_false, hst, Bool.false_and, String.append_empty,
+      String.toList_ofList, d1, if_true, ← hcal, h1]
 
 end JV.C18
